@@ -15,11 +15,31 @@ Entitled(op, id, mode) ==
   ELSE IF mode = "frozen" /\ op \in FrozenOps THEN id = AuthRoles["admin"]
   ELSE id \in Holders(op)
 
+\* ---- who holds a role *now*: the seven group roles are read from the group account before the instruction
+\* (cells always act in group G1), every other role of the table is fixed by the seed script
+GroupRoleNames == {"admin", "risk_admin", "emode_admin", "curve_admin", "limit_admin", "emissions_admin", "metadata_admin"}
+HolderIn(pre, role) ==
+  IF role \in GroupRoleNames /\ Has(pre, "groups") /\ Has(pre.groups, "G1") THEN pre.groups["G1"][role] ELSE AuthRoles[role]
+HoldersIn(pre, op) == {HolderIn(pre, AuthOps[op].role)} \cup {HolderIn(pre, AuthOps[op].also[i]) : i \in DOMAIN AuthOps[op].also}
+EntitledIn(pre, op, id, mode) ==
+  IF AuthOps[op].role = "anyone" THEN TRUE
+  ELSE IF mode = "frozen" /\ op \in FrozenOps THEN id = HolderIn(pre, "admin")
+  ELSE id \in HoldersIn(pre, op)
+
+\* a successful group configuration leaves every role with exactly the key that was asked for
+C08Roles(pre, e, post, line) ==
+  (e.ev = "config_group" /\ Ok(e) /\ Has(e.a, "group") /\ Has(post.groups, e.a.group)) =>
+    \A r \in GroupRoleNames :
+      (Has(e.a, r)) =>
+        Chk("C08", "role_is_held_by_the_key_the_admin_assigned", line, post.groups[e.a.group][r] = e.a[r],
+            [group |-> e.a.group, role |-> r, asked |-> e.a[r], stored |-> post.groups[e.a.group][r]])
+
 \* the instruction record the cell's modifiers were applied to
 CellIx(a) == IF a.op = "tx" THEN a.ixs[AuthOps[a.cell].k + 1] ELSE a
 
 C08(pre, e, post, line) ==
-  (Has(e.a, "cell")) =>
+  /\ C08Roles(pre, e, post, line)
+  /\ (Has(e.a, "cell")) =>
     LET op == e.a.cell mode == e.a.mode ix == CellIx(e.a) slots == AuthOps[op].slots IN
     /\ (Has(ix, "subst")) =>
          \A j \in DOMAIN ix.subst :
@@ -31,9 +51,9 @@ C08(pre, e, post, line) ==
          Chk("C08", "missing_signature_rejected", line, ~Ok(e), [cell |-> op, mode |-> mode])
     /\ (e.a.variant = "signer") =>
          LET id == e.a.who IN
-         /\ (~Entitled(op, id, mode)) =>
+         /\ (~EntitledIn(pre, op, id, mode)) =>
               Chk("C08", "non_entitled_signer_rejected", line, ~Ok(e), [cell |-> op, signer |-> id, mode |-> mode])
-         /\ (Entitled(op, id, mode)) =>
+         /\ (EntitledIn(pre, op, id, mode)) =>
               Chk("C08", "entitled_signer_accepted", line, Ok(e), [cell |-> op, signer |-> id, mode |-> mode, err |-> e.err])
     /\ (e.a.variant = "base") =>
          IF mode = "frozen" /\ op \in FrozenOps
